@@ -355,6 +355,20 @@ impl Matcher {
                 }
             }
 
+            // Apply splits/unsplits so that later disposals consume lots in current units
+            for tx in &transactions[i..day_end] {
+                let factor = match &tx.operation {
+                    Operation::Split { ratio } => *ratio,
+                    Operation::Unsplit { ratio } if *ratio != Decimal::ZERO => {
+                        Decimal::ONE / *ratio
+                    }
+                    _ => continue,
+                };
+                if let Some(ledger) = ledgers.get_mut(&tx.ticker) {
+                    ledger.rescale(factor);
+                }
+            }
+
             i = day_end;
         }
 
